@@ -1048,10 +1048,11 @@ class Gen:
 
     def closure_contract(self, text, fname, arg, spec, log):
         """contract on a closure of the real body: `|p| BODY` -> `|p: T| -> (r: R) <spec> { BODY }` (BODY untouched)"""
-        m = re.match(r"`(.*?)`\s+params=`(.*?)`\s+ret=`(.*?)`\s*:$", arg)
+        m = re.match(r"`(.*?)`\s+params=`(.*?)`\s+ret=`(.*?)`(?:\s+bind=`(.*?)`)?\s*:$", arg)
         if not m:
             raise WbxError(f"bad closure directive `{arg}`")
-        anchor, params, ret = m.groups()
+        anchor, params, ret, bind = m.groups()
+        bind = (bind + " ") if bind else ""
         hits = find_tokens(text, anchor, "closure")
         if not hits:
             raise WbxError(f"lost anchor: closure `{anchor}` not found in fn {fname}")
@@ -1080,7 +1081,7 @@ class Gen:
             q += 1
         bs, be = toks[sg[b]].s, toks[sg[q - 1]].e
         bump(log, "R13 closure parameter types annotated + closure contract attached")
-        new = text[:s0] + params + " -> " + ret + "\n" + spec + "\n            { " + text[bs:be] + " }" + text[be:]
+        new = text[:s0] + params + " -> " + ret + "\n" + spec + "\n            { " + bind + text[bs:be] + " }" + text[be:]
         if rest_hits:
             # remaining (earlier) occurrences: recurse on the prefix only
             head = self.closure_contract(text[:s0], fname, arg, spec, log)
